@@ -38,6 +38,10 @@ CLAIMED = {
    text="Numeric core only: bounded model checking (z3) that calculating an already calculated invoice skeleton again changes no amount, precision or index (fixpoint), for all symbolic prices/amounts, both rounding rules. Whole-document JSON byte identity, struct-tag (un)marshalling and string normalisers are outside the claim (reflection/regexp over unbounded strings); amount/percentage codec losslessness is C06.",
    note="Assumes go/ssa faithful, z3 sound; C05 summaries. Known finding (open): fixed amounts supplied with more decimals than they are presented at are rounded in place, so recalculation changes totals (class C04-fixed-amount-rounded-in-place).",
    ref="DESIGN.md 5 (C04), 6"),
+ "C17": dict(
+   text="Bounded model checking (z3) on invoice skeletons with all prices/amounts symbolic. Quick: swapping the two lines of a document (with every combination of optional discounts, charges, advances, tax-included prices, both rounding rules) changes no line figure, no document total and no tax group (2-safety: the real calculate is run on both orders). Thorough adds: Invoice.Invert succeeds, negates every line total / tax amount / document total and twice restores them; removing included taxes yields payable = original total with tax with the residue in the rounding field - these relational queries are hard for the solver and whatever stays unknown is reported as not covered.",
+   note="Assumes go/ssa faithful, z3 sound, C05 summaries. Outside: permutations of more than two rows; discounts/charges with explicit bases and explicit-quantity rate charges (where Invert is known to fail, DESIGN 8 #14, not yet re-found by a check).",
+   ref="DESIGN.md 5 (C17)"),
 }
 
 NA = {
